@@ -177,6 +177,7 @@ def run_property(modname, tier="quick", seed=0, jobs=None, only=None, verbose=Fa
     mod = importlib.import_module(modname)
     prop = mod.PROPERTY
     insts = mod.instances(tier)
+    units = getattr(mod, "units", lambda: [])()  # also imports the repo modules before forking
     idxs = [i for i, x in enumerate(insts) if only is None or only in x.name]
     idxs.sort(key=lambda i: -insts[i].cost)
     nwit = 3 if tier == "quick" else 10
@@ -243,7 +244,6 @@ def run_property(modname, tier="quick", seed=0, jobs=None, only=None, verbose=Fa
             samples.append(s)
     if not samples:
         samples = [dict(instance=r["name"], witness=r.get("witness")) for r in results[:2]]
-    units = getattr(mod, "units", lambda: [])()
     ev = dict(
         property_id=prop,
         tier=tier,
